@@ -6,6 +6,7 @@ import (
 	"fmt"
 	"math/rand"
 	"runtime"
+	"strings"
 	"sync"
 	"sync/atomic"
 	"time"
@@ -35,16 +36,16 @@ func init() {
 		Level: "exploration",
 		Rule: "case = G goroutines (2, 4, 16, 64 by index), goroutine g owns UE context g (own keys, algorithm pair cycling through {NIA1,NIA2}x{NEA0,NEA1,NEA2}) and executes a seeded script (lock-step prefix of 3 rounds over all operation kinds, then one burst of 16 (quick) / 64 (thorough) consecutive operations per kind at the same script positions in every goroutine, then a mixed random tail of 60 / 400) of operations drawn from " +
 			"NGAP build+encode, NGAP decode, plain NAS encode/decode, NAS protect (EncodeNasPduWithSecurity), NAS unprotect (NASDecode), key derivation (DeriveRESstarAndSetKey), NASEncrypt, NASMacCalculate, Milenage F1/F2345, and - generated inside the goroutine - any of the 77 NGAP message types (encode, decode, re-encode), the 25 transfer container types through aper.MarshalWithParams/UnmarshalWithParams, any of the 45 NAS message types with a random optional-IE subset, the 64 builders that do not write the announced PLMN, the identity / conversion helpers (EncodeSuci, CreateUE, capability, PLMN, S-NSSAI, AMF id, transport address, PCO, DNN) and the two hand-written extractors on reference-built messages; " +
-			"GOMAXPROCS alternates between 2 and 16, Gosched calls are sprinkled by the script. Each case is a fresh process: the scripts run concurrently FIRST (caches and lazily built tables cold; a lock-step prefix makes every goroutine use each operation kind on identical inputs at the same time, so first uses collide), then one goroutine at a time for reference. distinct = hash(G, scripts); non-trivial = overlapping operations were observed",
+			"GOMAXPROCS alternates between 2 and 16, Gosched calls are sprinkled by the script. Each case is a fresh process: the scripts run concurrently FIRST (caches and lazily built tables cold; a lock-step prefix makes every goroutine use each operation kind on identical inputs at the same time, so first uses collide), then one goroutine at a time for reference. Seven further cases are HOT LOOPS: 8 goroutines with related keys (equal leading octets) run 12 000 (quick) / 120 000 (thorough) iterations of one or two cheap operation kinds (MAC+cipher, key derivation, Milenage, conversions, ...), for windows of a few instructions. distinct = hash(G, scripts); non-trivial = overlapping operations were observed",
 		Assumptions: []string{
 			"NG Setup (which writes the announced PLMN) is issued once before the goroutines start, as in the emulator",
 			"'all interleavings' is approached by stress; the race detector's verdict is timing independent (happens-before), the determinism oracle's is not",
 		},
 		N: func(t string) int {
 			if t == "thorough" {
-				return 96
+				return 96 + 4*len(c20HotSets)
 			}
-			return 12
+			return 12 + len(c20HotSets)
 		},
 		Batch: 1,
 		Race:  true,
@@ -174,14 +175,31 @@ func c20Op(a *c20Actor, kind int) [32]byte {
 	return out
 }
 
+// c20Related makes the key material of different UEs of one case RELATED (by case seed): independent, or equal except
+// for the last octets, or equal except for the first octets, or differing in a single bit. Shared tables indexed by part
+// of a key, and caches keyed by a prefix or a hash of it, only collide for related keys.
+func c20Related(seed int64, g int, own []byte) []byte {
+	base := rbytes(rand.New(rand.NewSource(seed^0x6b65)), len(own))
+	switch seed % 4 {
+	case 1:
+		copy(own[:len(own)-2], base[:len(own)-2]) // same leading octets
+	case 2:
+		copy(own[2:], base[2:]) // same trailing octets
+	case 3:
+		copy(own, base)
+		own[(g/8)%len(own)] ^= 1 << uint(g%8) // one bit apart
+	}
+	return own
+}
+
 func c20NewActor(seed int64, g int) *c20Actor {
 	r := rand.New(rand.NewSource(seed + int64(g)*7919))
 	iAlg := uint8(1 + g%2)
 	cAlg := uint8((g / 2) % 3)
-	a := &c20Actor{r: r, k: rbytes(r, 16), opc: rbytes(r, 16), amf: r.Int63n(1 << 40)}
+	a := &c20Actor{r: r, k: c20Related(seed, g, rbytes(r, 16)), opc: c20Related(seed+1, g, rbytes(r, 16)), amf: r.Int63n(1 << 40)}
 	a.ue = tglib.NewRanUeContext("imsi-00101"+fmt.Sprintf("%010d", g+1), int64(g+1), cAlg, iAlg)
-	copy(a.ue.KnasEnc[:], rbytes(r, 16))
-	copy(a.ue.KnasInt[:], rbytes(r, 16))
+	copy(a.ue.KnasEnc[:], c20Related(seed+2, g, rbytes(r, 16)))
+	copy(a.ue.KnasInt[:], c20Related(seed+3, g, rbytes(r, 16)))
 	a.dlUE = tglib.NewRanUeContext(a.ue.Supi, int64(g+1), cAlg, iAlg)
 	a.dlUE.KnasEnc, a.dlUE.KnasInt = a.ue.KnasEnc, a.ue.KnasInt
 	a.descs, a.builders = c20Descs(), c20Builders()
@@ -189,7 +207,88 @@ func c20NewActor(seed int64, g int) *c20Actor {
 	return a
 }
 
+// hot loops: windows of a few instructions (a cache line replaced between "is it mine?" and "use it") need of the order
+// of 10^5 overlapping calls of the SAME cheap operation; the mixed scripts give each kind a few hundred.
+var c20HotSets = [][]int{{6, 7}, {5}, {8}, {12}, {0, 1}, {3, 4}, {2, 11}}
+
+func runC20Hot(c *fw.Case, set []int) (o fw.Outcome) {
+	G, iters := 8, 12000
+	if c.Thorough() {
+		iters = 120000
+	}
+	heavy := false
+	for _, k := range set {
+		if k <= 4 || k >= 9 {
+			heavy = true
+		}
+	}
+	if heavy {
+		iters /= 8
+	}
+	old := runtime.GOMAXPROCS(16)
+	defer runtime.GOMAXPROCS(old)
+	seed := c.R.Int63()
+	seed -= seed % 4
+	seed += 1 // related keys: equal leading octets for K; the NAS keys get their own relation by seed+2 / seed+3
+	names := ""
+	for _, k := range set {
+		names += c20OpNames[k] + " "
+	}
+	tp.BuildNGSetupRequest([]byte{0x00, 0xf1, 0x10})
+	o.Input = fmt.Sprintf("hot loop: G=%d goroutines x %d iterations of { %s}, related keys, NIA2/NEA2 contexts, seed %d", G, iters, names, seed)
+	o.Digest = fw.HashS(o.Input)
+	o.Tag("hot-loop:" + strings.TrimSpace(names))
+	mk := func(g int) *c20Actor {
+		a := c20NewActor(seed, g)
+		a.ue.IntegrityAlg, a.ue.CipheringAlg = 2, 2 // the cheap algorithms: the loop is about overlap, not about SNOW 3G under the race runtime
+		a.dlUE.IntegrityAlg, a.dlUE.CipheringAlg = 2, 2
+		for _, k := range [][]byte{a.ue.KnasInt[:], a.ue.KnasEnc[:]} { // same first octets for every UE of the case
+			k[0], k[1] = byte(seed>>8), byte(seed>>16)
+		}
+		a.dlUE.KnasEnc, a.dlUE.KnasInt = a.ue.KnasEnc, a.ue.KnasInt
+		return a
+	}
+	got := make([][][32]byte, G)
+	var wg sync.WaitGroup
+	gate := make(chan struct{})
+	for g := 0; g < G; g++ {
+		wg.Add(1)
+		go func(g int) {
+			defer wg.Done()
+			a := mk(g)
+			got[g] = make([][32]byte, iters)
+			<-gate
+			for i := 0; i < iters; i++ {
+				got[g][i] = c20Op(a, set[i%len(set)])
+			}
+		}(g)
+	}
+	close(gate)
+	wg.Wait()
+	o.Count("operations", int64(G*iters))
+	o.Count("hot_loop_operations", int64(G*iters))
+	o.Nontrivial = true
+	for g := 0; g < G; g++ {
+		a := mk(g)
+		for i := 0; i < iters; i++ {
+			if c20Op(a, set[i%len(set)]) != got[g][i] {
+				k := set[i%len(set)]
+				o.Fail("diverges:"+c20OpNames[k], "hot loop, goroutine %d, iteration %d (%s): the result under concurrency differs from the result of the same operation in the sequential run", g, i, c20OpNames[k])
+				return
+			}
+		}
+	}
+	return
+}
+
 func runC20(c *fw.Case) (o fw.Outcome) {
+	base := 12
+	if c.Thorough() {
+		base = 96
+	}
+	if c.Idx >= base {
+		return runC20Hot(c, c20HotSets[(c.Idx-base)%len(c20HotSets)])
+	}
 	G := []int{2, 4, 16, 64}[c.Idx%4]
 	nk := len(c20OpNames)
 	// script of every goroutine = lock-step prefix (same kinds, same inputs: first uses collide) + one BURST per operation
@@ -209,7 +308,7 @@ func runC20(c *fw.Case) (o fw.Outcome) {
 	for k := range blen {
 		blen[k] = 4 * burst
 		switch c20OpNames[k] {
-		case "nas-protect", "nas-unprotect", "nas-encrypt", "nas-mac":
+		case "nas-protect", "nas-unprotect":
 			blen[k] = burst
 		}
 		bsum += blen[k]
